@@ -23,7 +23,15 @@ areas_b={
  'B5':"rsec16: change the parallel execution strategy in ways no property constrains: a different number of worker goroutines than requested when fewer suffice, workers processing their ranges in a different internal order (columns outer, rows inner; or last range first), starting workers lazily. Keep the calls to verifStep/verifFork/verifEnter/verifExit/verifJoin/verifJoined meaningful where the existing code has them and do not edit verif_*.go files. Results (bytes) must be unchanged.",
  'B6':"par2 Verify/Repair internals: when and how often files are read (for example reading each data file only once and caching it between load and repair, or re-reading the index), skipping work that cannot change the result (not building the coder when nothing is missing), freeing memory early - with identical results, errors and written files.",
 }
-areas = areas_b if suffix >= 'b' else areas_a
+areas_c={
+ 'B1':"defaults and limits that no property fixes: change the library and CLI defaults (for example default slice size 4096 and 5 recovery blocks/volumes, another default goroutine count), keeping the exported default constants and the documentation consistent with the new values, and keeping explicit option values working exactly as before.",
+ 'B2':"rsec16: add a second, CORRECT parallel strategy and use it for some shapes - for example split the OUTPUT ROWS among goroutines (applyMatrixParallelOut already exists) when there are many parity/output rows and short shards, and split the data range otherwise. Results must be byte-identical to the single-goroutine result for every shape and goroutine count. Do not edit verif_*.go files; keep the existing verif* calls where the existing code has them.",
+ 'B3':"par2 reader tolerance: act on the 'TODO: Relax this check' comments in par2/file.go and par2/decoder.go CORRECTLY - a volume file that contains a damaged packet, trailing garbage or a truncated last packet should still contribute its intact packets of this set instead of making the whole Verify/Repair fail; the index file may stay strict. Every packet that is used must still pass its own MD5 check and set-id check, no count may ever include a block that is not intact, and nothing may panic on any input.",
+ 'B4':"par1 reader convenience: find the index and the volume files case-insensitively (x.PAR, x.P01) and tolerate a volume whose file list carries a different comment or status bits than the index while its set hash matches, CORRECTLY and without weakening any check that protects the results.",
+ 'B5':"correct process-wide caching: cache things that are pure functions of their inputs across calls in one process (for example the GF(2^16) parity matrix per (data shards, parity shards), CRC window tables per slice size) behind a mutex, with complete cache keys, so that repeated operations in one process get faster but results never change.",
+ 'B6':"par2 Repair robustness that no property forbids: when Repair has to rewrite several files, order the writes so that a file whose current content holds slices needed by another not-yet-written file is written later, and keep everything else (hash checks before every write, the list of written files, error behaviour) exactly as it is.",
+}
+areas = areas_c if suffix >= 'c' else (areas_b if suffix >= 'b' else areas_a)
 T='''You are helping test a verification effort for the Go project akalin/gopar (a Go implementation of the PAR1 and PAR2 parity-archive formats with its own GF(2^16) arithmetic, Reed-Solomon coder and a `par` CLI). You have your own scratch git worktree of the repository at {wt} . Work ONLY inside {wt} (source edits) and {out} (your deliverables). Never read or write anything under /repo or /verif.
 
 Every shell call needs: export GOFLAGS=-mod=mod GOPROXY=off GOSUMDB=off GOTOOLCHAIN=local   (no network; default `go` is 1.23). Run the test suite with: cd {wt} && go test -count=1 ./...
